@@ -131,4 +131,4 @@ QUERIES = [
           bounds=lambda tier: {"name_pool": POOL, "operations": OPS, "history": "2 operations (quick) / 3 (thorough)", "models": "up to 4 open at once", "tokens": "unbounded symbolic ints"},
           outside=["models holding references into each other", "histories longer than 3", "restore_model / pickled models"]),
 ]
-BUDGET = {"quick": 420, "thorough": 2400}
+BUDGET = {"quick": 420, "thorough": 1200}
